@@ -58,6 +58,9 @@ def stream_rows(ctx, ntables):
             out = Synthesizer(t["df"], anonymization_params=t["ap"], bucketization_params=t["bp"], clustering=strat()).sample()
         except RecursionError:
             continue
+        except ValueError as e:
+            if is_empty_cluster_error(e): continue      # C07's known finding F14
+            raise
         S.count((repr(t["df"].values.tolist()), repr(t["ap"]), strat.__name__), t["n"] >= t["ap"].low_count_params.low_threshold,
                 {"table": ES.typed_summary(t), "strategy": strat.__name__, "rows_out": len(out)}, tag=strat.__name__)
         oracle_rows(ctx, t, strat.__name__, len(out))
